@@ -114,6 +114,13 @@ func (engine *Engine) recoverInterruptedCommit() error {
 		if num == 0 || num < engine.forkConfig.FINALITY || getStorePoint(num) != num {
 			continue
 		}
+		// only branches the node still accepts: a stale head that conflicts with the finalized checkpoint was
+		// committed (or refused) long ago and must not be able to move finality sideways
+		if ok, err := engine.repo.NewChain(id).HasBlock(engine.Finalized()); err != nil {
+			return err
+		} else if !ok {
+			continue
+		}
 		sum, err := engine.repo.GetBlockSummary(id)
 		if err != nil {
 			return err
